@@ -211,6 +211,7 @@ func (r *lcRun) exec(f string, i, c int, t *f1testing.T, ownerF string, ownerI i
 	if !ok {
 		return // the spec says this function does not run; the recorded event will not match
 	}
+	t.StandardLogger().Info("step", "level", 7, "fn", f)
 	for _, st := range prog {
 		switch st {
 		case "reg":
@@ -330,8 +331,15 @@ func lcOnceInner(res *lcResult, r *lcRun, scn *scenarios.Scenarios, b lcBehaviou
 	if lcReplays.Add(1)%2 == 0 {
 		out = ui.NewOutput(discardLogger(), ui.NewDiscardPrinter(), false, false)
 	}
+	// every third replay writes the scenario's log to a file in JSON (F1_LOG_FORMAT=json, not verbose): what the scenario
+	// writes to its logger - every function logs a line with an attribute called "level" - is not an event of the run
+	settings, verbose := envsettings.Settings{}, true
+	if n := lcReplays.Load(); n%3 == 0 {
+		verbose = false
+		settings.Log = envsettings.Log{Format: "json", FilePath: filepath.Join(os.TempDir(), fmt.Sprintf("verif-lc-%d-%d.log", os.Getpid(), n%7))}
+	}
 	rn, err := run.NewRun(options.RunOptions{Scenario: "lc", MaxDuration: 20 * time.Second, Concurrency: 1,
-		MaxIterations: uint64(b.NIter), Verbose: true}, scn, trig, 5*time.Second, envsettings.Settings{}, m, out)
+		MaxIterations: uint64(b.NIter), Verbose: verbose}, scn, trig, 5*time.Second, settings, m, out)
 	if err != nil {
 		res.Note = "newrun: " + err.Error()
 		return *res
